@@ -17,9 +17,10 @@ from symx import Unit, check_property, drive, load, run_canaries
 from . import common
 
 PROP = "C12"
-IPC, IPP, ABS = "aiohomekit.controller.ip.connection", "aiohomekit.controller.ip.pairing", "aiohomekit.controller.abstract"
+IPC, IPP, ABS, ZC = "aiohomekit.controller.ip.connection", "aiohomekit.controller.ip.pairing", "aiohomekit.controller.abstract", "aiohomekit.zeroconf"
 IDS = [(1, 10), (1, 11), (2, 10)]
 SUBSETS = [[0], [0, 1], [1, 2], [2, 0, 1]]
+SUBSETS_THOROUGH = [[0], [1], [2], [0, 1], [0, 2], [1, 2], [0, 1, 2], [2, 0, 1]]
 
 
 class Mods:
@@ -31,7 +32,8 @@ def copies(mutate=None):
     m = Mods()
     m.abs = load(ABS, src_transform=mutate.get(ABS), symbolic=False)
     m.ipc = load(IPC, src_transform=mutate.get(IPC), symbolic=False)
-    m.ipp = load(IPP, deps={IPC: m.ipc, ABS: m.abs}, src_transform=mutate.get(IPP), symbolic=False)
+    m.zc = load(ZC, deps={ABS: m.abs}, src_transform=mutate.get(ZC), symbolic=False)  # IpPairing -> ZeroconfPairing -> AbstractPairing
+    m.ipp = load(IPP, deps={IPC: m.ipc, ABS: m.abs, ZC: m.zc}, src_transform=mutate.get(IPP), symbolic=False)
     return m
 
 
@@ -127,7 +129,7 @@ def event_body(kind, n):
     return b'{"characteristics":\xff\xfe}', None
 
 
-def history_unit(M, depth):
+def history_unit(M, depth, SUBSETS=SUBSETS):
     events = ["subscribe", "unsubscribe", "reconnect", "reconnect-cut-off", "disconnect", "event", "add-listener", "remove-listener"]
 
     def h(ex):
@@ -222,9 +224,10 @@ def history_unit(M, depth):
 def build(tier, mutate=None):
     C = copies(mutate)
     R = reals()
-    depth = 4 if tier != "thorough" else 5
-    return [Unit("history/%d-events" % depth, history_unit(C, depth), history_unit(R, depth), split=True,
-                 bounds={"events": depth, "ids": IDS, "id sets": "4 lists over 3 ids on 2 accessory ids", "listeners": "at most 3, each may raise",
+    depth = 4
+    subsets = SUBSETS_THOROUGH if tier == "thorough" else SUBSETS
+    return [Unit("history/%d-events,%d-id-lists" % (depth, len(subsets)), history_unit(C, depth, subsets), history_unit(R, depth, subsets), split=True,
+                 bounds={"events": depth, "ids": IDS, "id sets": "%d lists over 3 ids on 2 accessory ids" % len(subsets), "listeners": "at most 3, each may raise",
                          "event bodies": BODIES, "reconnect": "clean, or cut off at its 1st / 2nd request"},
                  regions=["subscribe", "reconnected", "cut-off", "event-one", "event-empty", "event-not-json"], diff_sample=400, max_paths=3000000)]
 
